@@ -122,6 +122,20 @@ def cases(tier):
     C("nest/let-in-if", lambda a, b, c: E(S("if"), a, E(S("let"), List([S("x"), b]), S("x")), c), 3, B, kind="arity_bounded")
     C("nest/if-in-while-body", lambda c, a, b, d: E(S("while"), c, E(S("if"), a, b, d)), 4, ("E", "SE"), ctxkw=LOOP, kind="arity_bounded")
     C("nest/cond-in-do", lambda a, b, c: E(S("do"), a, E(S("cond"), b, c)), 3, B, kind="arity_bounded")
+    # two statement-valued ifs whose values are alive at the same time, inside each position of an if / cond chain (a rule that shares
+    # one result variable down a chain must not hand it to unrelated ifs compiled in the chain's tests and bodies)
+    two = lambda p, x, q, y: E(S("+"), E(S("if"), p, x, Integer(2)), E(S("if"), q, y, Integer(20)))
+    TW = [("E",), ("SE",), ("E",), ("SE",)]
+    C("nest/two-ifs-in-chain-second-body", lambda a, c, p, x, q, y: E(S("if"), a, Integer(1), E(S("if"), c, two(p, x, q, y), Integer(3))), 6,
+      [("E",), ("E",)] + TW, kind="arity_bounded")
+    C("nest/two-ifs-in-chain-second-test", lambda a, p, x, q, y, d: E(S("if"), a, Integer(1), E(S("if"), two(p, x, q, y), d, Integer(3))), 6,
+      [("E",)] + TW + [("E", "SE")], kind="arity_bounded")
+    C("nest/two-ifs-in-chain-last-else", lambda a, c, p, x, q, y: E(S("if"), a, Integer(1), E(S("if"), c, Integer(3), two(p, x, q, y))), 6,
+      [("E",), ("E",)] + TW, kind="arity_bounded")
+    C("nest/two-ifs-in-cond-second-clause", lambda a, c, p, x, q, y: E(S("cond"), a, Integer(1), c, two(p, x, q, y)), 6,
+      [("E",), ("E",)] + TW, kind="arity_bounded")
+    C("nest/two-ifs-in-first-body", lambda a, p, x, q, y, c: E(S("if"), a, two(p, x, q, y), E(S("if"), c, Integer(1), Integer(3))), 6,
+      [("E",)] + TW + [("E",)], kind="arity_bounded")
     return list(rules.CASES)
 
 
@@ -163,6 +177,10 @@ def run(chk):
     # exception-variable scoping, nestings) are obligations here as well, not only the three representatives above
     from hv.props import c09
     names = list(dict.fromkeys(names + [n for n in c09.cases() if n.split("/")[0] in ("try", "with", "raise", "nest")]))
+    # the result of a program includes what its variables hold afterwards: the cases with let-bound variables as operands (read back
+    # after the construct) are obligations of this property as well
+    from hv import uservars
+    names = list(dict.fromkeys(names + uservars.cases()))
     chk.fn(*sorted({c.fn for c in rules.CASES.values() if c.fn}),
            "hy/compiler.py::Result.__add__/expr_as_stmt/force_expr/rename", "hy/compiler.py::HyASTCompiler._compile_branch",
            "hy/compiler.py::HyASTCompiler._storeize")
